@@ -240,6 +240,7 @@ structure Inv (c : Cfg) (σ : St) : Prop where
     r ∈ σ.dag ∧ ∃ ty, c.sel s r ty = true ∧ (ty = .payload → c.phash r ∈ σ.payloads)
   admDag : ∀ r ty, (r, ty) ∈ σ.admitted → r ∈ σ.dag
   admPay : ∀ r, (r, EvType.payload) ∈ σ.admitted → c.phash r ∈ σ.payloads
+  dagLt : ∀ r, r ∈ σ.dag → r < c.nRefs
   loss : ∀ r ty s t, (r, ty) ∈ σ.admitted → s < c.nSubs → c.sel s r ty = true → Typed c s t →
     (∃ j, σ.shelf s r = some j ∧ j.type = ty) ∨ completedIn σ.ledger s r = true
 
@@ -253,6 +254,7 @@ theorem Inv.same {c : Cfg} {σ σ' : St} (h : Inv c σ) (e : SameDurable σ σ')
   · rw [e5, e1, e2]; exact h.finOk
   · rw [e4, e1]; exact h.admDag
   · rw [e4, e2]; exact h.admPay
+  · rw [e1]; exact h.dagLt
   · rw [e4, e3, e5]; exact h.loss
 
 theorem Inv.now {c : Cfg} {σ σ' : St} {s r : Nat} (h : Inv c σ) (st : NowStep c s r σ σ') : Inv c σ' := by
@@ -295,6 +297,7 @@ theorem Inv.now {c : Cfg} {σ σ' : St} {s r : Nat} (h : Inv c σ) (st : NowStep
       · exact h.finOk _ _ hm
     · exact h.admDag
     · exact h.admPay
+    · exact h.dagLt
     · intro r' ty s' t hm hlt hsel htyp
       simp only [setJob_admitted, log_admitted] at hm
       simp only [setJob_shelf, log_shelf, setJob_ledger, log_ledger, completedIn_cons]
@@ -397,7 +400,7 @@ theorem saveEvent_dag (c : Cfg) (σ : St) (ev : Nat × EvType) : (saveEvent c σ
 /-- admission of one event inside a write transaction: DAG / payload store grow, the event is recorded, saveEvent runs -/
 theorem Inv.admitEvent {c : Cfg} {σ : St} (h : Inv c σ) (r : Nat) (ty : EvType) (D' P' : List Nat)
     (hD : ∀ x, x ∈ σ.dag → x ∈ D') (hP : ∀ x, x ∈ σ.payloads → x ∈ P') (hr : r ∈ D')
-    (hty : ty = .payload → c.phash r ∈ P') :
+    (hty : ty = .payload → c.phash r ∈ P') (hDlt : ∀ x, x ∈ D' → x < c.nRefs) :
     Inv c (saveEvent c { σ with dag := D', payloads := P', admitted := (r, ty) :: σ.admitted } (r, ty)) := by
   have sp := saveEvent_spec c { σ with dag := D', payloads := P', admitted := (r, ty) :: σ.admitted } (r, ty)
   generalize saveEvent c { σ with dag := D', payloads := P', admitted := (r, ty) :: σ.admitted } (r, ty) = σ' at sp
@@ -437,6 +440,7 @@ theorem Inv.admitEvent {c : Cfg} {σ : St} (h : Inv c σ) (r : Nat) (ty : EvType
     rcases List.mem_cons.mp hm with hm | hm
     · injection hm with a b; rw [a]; exact hty b.symm
     · exact hP _ (h.admPay _ hm)
+  · rw [e1]; exact hDlt
   · intro r' ty' s' t hm hlt hsel htyp
     rw [e3] at hm; rw [e4]
     rcases List.mem_cons.mp hm with hm | hm
@@ -491,6 +495,7 @@ theorem Inv.finishedExt {c : Cfg} {σ : St} (h : Inv c σ) (s r : Nat) (f : Bool
         · exact h.finOk _ _ hm
       · exact h.admDag
       · exact h.admPay
+      · exact h.dagLt
       · intro r' ty s' t hm hlt hsel htyp
         simp only [log_ledger, setJob_ledger, log_shelf, setJob_shelf, completedIn_cons]
         by_cases heq : s' = s ∧ r' = r
@@ -516,18 +521,23 @@ theorem Inv.addTx {c : Cfg} {σ : St} (h : Inv c σ) (a : AddArgs) : Inv c (addT
   split; · exact h
   split; · exact h
   split; · exact h
-  next hnd _ _ _ _ =>
+  next hlt hnd _ _ _ _ =>
   simp only
   apply Inv.pending
+  have hDlt : ∀ x, x ∈ a.ref :: σ.dag → x < c.nRefs := by
+    intro x hx
+    rcases List.mem_cons.mp hx with rfl | hx
+    · omega
+    · exact h.dagLt x hx
   split
   · have h1 := h.admitEvent a.ref .payload (a.ref :: σ.dag) (c.phash a.ref :: σ.payloads)
       (fun x hx => List.mem_cons_of_mem _ hx) (fun x hx => List.mem_cons_of_mem _ hx) List.mem_cons_self
-      (fun _ => List.mem_cons_self)
+      (fun _ => List.mem_cons_self) hDlt
     generalize hσ1 : saveEvent c _ (a.ref, EvType.payload) = σ1 at h1 ⊢
     have hr : a.ref ∈ σ1.dag := by rw [← hσ1, saveEvent_dag]; exact List.mem_cons_self
-    exact h1.admitEvent a.ref .tx σ1.dag σ1.payloads (fun x hx => hx) (fun x hx => hx) hr (fun hh => by cases hh)
+    exact h1.admitEvent a.ref .tx σ1.dag σ1.payloads (fun x hx => hx) (fun x hx => hx) hr (fun hh => by cases hh) h1.dagLt
   · exact h.admitEvent a.ref .tx (a.ref :: σ.dag) σ.payloads
-      (fun x hx => List.mem_cons_of_mem _ hx) (fun x hx => hx) List.mem_cons_self (fun hh => by cases hh)
+      (fun x hx => List.mem_cons_of_mem _ hx) (fun x hx => hx) List.mem_cons_self (fun hh => by cases hh) hDlt
 
 
 theorem Inv.writePayload {c : Cfg} {σ : St} (h : Inv c σ) (r : Nat) (cf : Bool) : Inv c (writePayload c σ r cf).1 := by
@@ -540,7 +550,7 @@ theorem Inv.writePayload {c : Cfg} {σ : St} (h : Inv c σ) (r : Nat) (cf : Bool
   apply Inv.pending
   have hd' : r ∈ σ.dag := Classical.not_not.mp hd
   exact h.admitEvent r .payload σ.dag (c.phash r :: σ.payloads) (fun x hx => hx)
-    (fun x hx => List.mem_cons_of_mem _ hx) hd' (fun _ => List.mem_cons_self)
+    (fun x hx => List.mem_cons_of_mem _ hx) hd' (fun _ => List.mem_cons_self) h.dagLt
 
 theorem Inv.init (c : Cfg) : Inv c init := by
   constructor <;> intros <;> simp_all [Nuts.C14.init]
@@ -784,5 +794,934 @@ theorem addTx_cases (c : Cfg) (σ : St) (a : AddArgs) :
   · intro hp
     simp only [saveEvent_admitted, hp, if_true]
     exact List.mem_cons_of_mem _ List.mem_cons_self
+
+/-! ## exact effect of one `notifyNow` -/
+
+def jobAfter (c : Cfg) (j : Job) : Outcome → Option Job
+  | .done => none
+  | .doneFinishFail => some j
+  | .notDone => some { j with retries := j.retries + 1, err := .incomplete }
+  | .fail => some { j with retries := j.retries + 1, err := .generic }
+  | .failCtx => some { j with retries := j.retries + 1, err := .ctx }
+  | .fatal => some { j with retries := c.maxRetries + 1, err := .fatal }
+  | .crash => some j
+
+def resAfter : Outcome → NRes
+  | .done => .nil
+  | .doneFinishFail => .err
+  | .notDone => .err
+  | .fail => .err
+  | .failCtx => .err
+  | .fatal => .fatal
+  | .crash => .crashed
+
+theorem notifyNow_none {c : Cfg} {σ : St} {s r : Nat} (h : σ.shelf s r = none) : notifyNow c σ s r = (σ, .nil) := by
+  unfold notifyNow; rw [h]
+
+theorem notifyNow_some {c : Cfg} {σ : St} {s r : Nat} {j : Job} (h : σ.shelf s r = some j) :
+    notifyNow c σ s r =
+      (setJob (log σ (.call s r j.type j.retries (c.beh s r (attemptNo σ s r)))) s r (jobAfter c j (c.beh s r (attemptNo σ s r))),
+       resAfter (c.beh s r (attemptNo σ s r))) := by
+  unfold notifyNow; rw [h]; simp only
+  generalize c.beh s r (attemptNo σ s r) = o
+  cases o <;> simp only [jobAfter, resAfter]
+  · rw [setJob_self]; simpa [log] using h
+  · rw [setJob_self]; simpa [log] using h
+
+/-- the ledger only grows -/
+def Grows (σ σ' : St) : Prop := ∃ new, σ'.ledger = new ++ σ.ledger
+
+theorem Grows.refl (σ : St) : Grows σ σ := ⟨[], rfl⟩
+theorem Grows.trans {a b d : St} (h1 : Grows a b) (h2 : Grows b d) : Grows a d := by
+  obtain ⟨n1, e1⟩ := h1; obtain ⟨n2, e2⟩ := h2
+  exact ⟨n2 ++ n1, by rw [e2, e1, List.append_assoc]⟩
+
+theorem DStep.grows {c : Cfg} {σ σ' : St} (d : DStep c σ σ') : Grows σ σ' := by
+  induction d with
+  | vol e => exact ⟨[], by rw [e.ledger]; rfl⟩
+  | now s r st =>
+    cases st with
+    | skip _ e => subst e; exact Grows.refl _
+    | call j o nj _ _ _ _ e => subst e; exact ⟨[_], rfl⟩
+  | trans _ _ ih1 ih2 => exact ih1.trans ih2
+
+theorem attemptNo_mono {σ σ' : St} (h : Grows σ σ') (s r : Nat) : attemptNo σ s r ≤ attemptNo σ' s r := by
+  obtain ⟨new, e⟩ := h
+  unfold attemptNo
+  rw [e, List.filter_append, List.length_append]
+  omega
+
+def Outcome.calm : Outcome → Bool
+  | .done | .notDone | .fail | .fatal => true
+  | _ => false
+
+/-- from this state on no receiver call stops the node, hits a storage fault, or returns the context error -/
+def CalmFrom (c : Cfg) (σ : St) : Prop := ∀ s r k, attemptNo σ s r ≤ k → (c.beh s r k).calm = true
+
+theorem CalmFrom.mono {c : Cfg} {σ σ' : St} (h : CalmFrom c σ) (g : Grows σ σ') : CalmFrom c σ' :=
+  fun s r k hk => h s r k (Nat.le_trans (attemptNo_mono g s r) hk)
+
+theorem CalmFrom.now {c : Cfg} {σ : St} (h : CalmFrom c σ) (s r : Nat) : (c.beh s r (attemptNo σ s r)).calm = true :=
+  h s r _ (Nat.le_refl _)
+
+theorem notifyNow_grows (c : Cfg) (σ : St) (s r : Nat) : Grows σ (notifyNow c σ s r).1 :=
+  (DStep.now s r (notifyNow_step c σ s r)).grows
+
+
+/-! ## coverage: every job below the retry budget has a live retry loop with enough attempts left, or a pending notification -/
+
+def CovAt (c : Cfg) (sh : Nat → Nat → Option Job) (run : List Task) (pen : List (Nat × EvType)) (s r : Nat) : Prop :=
+  ∀ j, sh s r = some j → j.retries < c.maxRetries →
+    (∃ t, t ∈ run ∧ t.sub = s ∧ t.ref = r ∧ 1 ≤ t.left ∧ c.maxRetries ≤ t.left + j.retries) ∨
+    (∃ ty, (r, ty) ∈ pen ∧ c.sel s r ty = true)
+
+def Cov (c : Cfg) (σ : St) (s r : Nat) : Prop := CovAt c σ.shelf σ.running σ.pending s r
+
+def Covered (c : Cfg) (σ : St) : Prop := ∀ s r, s < c.nSubs → r < c.nRefs → Cov c σ s r
+
+theorem CovAt.keep {c : Cfg} {sh sh' : Nat → Nat → Option Job} {run run' : List Task} {pen pen' : List (Nat × EvType)} {s r : Nat}
+    (h : CovAt c sh run pen s r)
+    (hsh : ∀ j', sh' s r = some j' → j'.retries < c.maxRetries → ∃ j, sh s r = some j ∧ j.retries ≤ j'.retries)
+    (hrun : ∀ t, t ∈ run → t.sub = s → t.ref = r → t ∈ run')
+    (hpen : ∀ ty, (r, ty) ∈ pen → c.sel s r ty = true → (r, ty) ∈ pen') : CovAt c sh' run' pen' s r := by
+  intro j' hj' hlt
+  obtain ⟨j, hj, hle⟩ := hsh j' hj' hlt
+  rcases h j hj (by omega) with ⟨t, ht, h1, h2, h3, h4⟩ | ⟨ty, hp, hs⟩
+  · exact .inl ⟨t, hrun t ht h1 h2, h1, h2, h3, by omega⟩
+  · exact .inr ⟨ty, hpen ty hp hs, hs⟩
+
+theorem jobAfter_calm_retries {c : Cfg} {j j' : Job} {o : Outcome} (ho : o.calm = true) (h : jobAfter c j o = some j')
+    (hlt : j'.retries < c.maxRetries) : j'.retries = j.retries + 1 ∧ j'.err ≠ .ctx := by
+  cases o <;> simp [Outcome.calm] at ho <;> simp [jobAfter] at h
+  · subst h; exact ⟨rfl, by simp⟩
+  · subst h; exact ⟨rfl, by simp⟩
+  · subst h; simp at hlt; omega
+
+/-- a calm `notifyNow` keeps every key covered (running and pending are untouched, retries only grow below the budget) -/
+theorem notifyNow_keeps {c : Cfg} {σ : St} (hc : CalmFrom c σ) (s r s' r' : Nat) (h : Cov c σ s' r') :
+    Cov c (notifyNow c σ s r).1 s' r' := by
+  cases hj : σ.shelf s r with
+  | none => rw [notifyNow_none hj]; exact h
+  | some j =>
+    rw [notifyNow_some hj]
+    refine CovAt.keep h ?_ (fun t ht _ _ => ht) (fun ty hp _ => hp)
+    intro j' hj' hlt
+    simp only [setJob_shelf, log_shelf] at hj'
+    split at hj'
+    · next heq =>
+      obtain ⟨rfl, rfl⟩ := heq
+      have := jobAfter_calm_retries (hc.now s' r') hj' hlt
+      exact ⟨j, hj, by omega⟩
+    · exact ⟨j', hj', Nat.le_refl _⟩
+
+theorem notifyNow_running (c : Cfg) (σ : St) (s r : Nat) : (notifyNow c σ s r).1.running = σ.running := by
+  cases hj : σ.shelf s r with
+  | none => rw [notifyNow_none hj]
+  | some j => rw [notifyNow_some hj]; rfl
+
+theorem notifyNow_pending (c : Cfg) (σ : St) (s r : Nat) : (notifyNow c σ s r).1.pending = σ.pending := by
+  cases hj : σ.shelf s r with
+  | none => rw [notifyNow_none hj]
+  | some j => rw [notifyNow_some hj]; rfl
+
+theorem notifyNow_not_crashed {c : Cfg} {σ : St} (hc : CalmFrom c σ) (s r : Nat) : (notifyNow c σ s r).2 ≠ .crashed := by
+  cases hj : σ.shelf s r with
+  | none => rw [notifyNow_none hj]; simp
+  | some j =>
+    rw [notifyNow_some hj]
+    have := hc.now s r
+    generalize c.beh s r (attemptNo σ s r) = o at this
+    cases o <;> simp [Outcome.calm] at this <;> simp [resAfter]
+
+def NoCtx (σ : St) : Prop := ∀ s r j, σ.shelf s r = some j → j.err ≠ .ctx
+
+theorem notifyNow_noCtx {c : Cfg} {σ : St} (hc : CalmFrom c σ) (s r : Nat) (h : NoCtx σ) : NoCtx (notifyNow c σ s r).1 := by
+  cases hj : σ.shelf s r with
+  | none => rw [notifyNow_none hj]; exact h
+  | some j =>
+    rw [notifyNow_some hj]
+    intro s' r' j' hj'
+    simp only [setJob_shelf, log_shelf] at hj'
+    split at hj'
+    · have hcalm := hc.now s r
+      generalize c.beh s r (attemptNo σ s r) = o at hcalm hj'
+      cases o <;> simp [Outcome.calm] at hcalm <;> simp [jobAfter] at hj' <;> subst hj' <;> simp
+    · exact h _ _ _ hj'
+
+theorem spawn_running_sub (c : Cfg) (σ : St) (s r k : Nat) : ∀ t, t ∈ σ.running → t ∈ (spawn c σ s r k).running := by
+  intro t ht; unfold spawn; split
+  · simp [ht]
+  · exact ht
+
+theorem spawn_shelf (c : Cfg) (σ : St) (s r k : Nat) : (spawn c σ s r k).shelf = σ.shelf := (spawn_same c σ s r k).shelf
+theorem spawn_pending (c : Cfg) (σ : St) (s r k : Nat) : (spawn c σ s r k).pending = σ.pending := by
+  unfold spawn; split <;> rfl
+theorem spawn_ledger (c : Cfg) (σ : St) (s r k : Nat) : (spawn c σ s r k).ledger = σ.ledger := (spawn_same c σ s r k).ledger
+
+theorem spawn_keeps {c : Cfg} {σ : St} (s r k s' r' : Nat) (h : Cov c σ s' r') : Cov c (spawn c σ s r k) s' r' := by
+  unfold Cov; rw [spawn_shelf, spawn_pending]
+  exact CovAt.keep h (fun j' hj' _ => ⟨j', hj', Nat.le_refl _⟩) (fun t ht _ _ => spawn_running_sub c σ s r k t ht) (fun ty hp _ => hp)
+
+theorem spawn_mem {c : Cfg} {σ : St} {s r k : Nat} (h : k + 1 < c.maxRetries) :
+    ∃ t, t ∈ (spawn c σ s r k).running ∧ t.sub = s ∧ t.ref = r ∧ t.left = c.maxRetries - (k + 1) := by
+  unfold spawn retryAttempts; rw [if_pos h]
+  exact ⟨{ sub := s, ref := r, left := c.maxRetries - (k + 1), n := 0, base := k + 1 }, by simp, rfl, rfl, rfl⟩
+
+theorem spawn_noCtx {c : Cfg} {σ : St} (s r k : Nat) (h : NoCtx σ) : NoCtx (spawn c σ s r k) := by
+  unfold NoCtx; rw [spawn_shelf]; exact h
+
+theorem cov_after_spawn {c : Cfg} {σ1 : St} {s r : Nat} {j1 : Job} (hsh : σ1.shelf s r = some j1) (h1 : 1 ≤ j1.retries) :
+    Cov c (spawn c σ1 s r 0) s r := by
+  intro j' hj' hlt
+  rw [spawn_shelf, hsh] at hj'
+  injection hj' with hj'; subst hj'
+  obtain ⟨t, ht, a, b, d⟩ := spawn_mem (c := c) (σ := σ1) (s := s) (r := r) (k := 0) (by omega)
+  exact .inl ⟨t, ht, a, b, by omega, by omega⟩
+
+/-- a calm `Notify` of a selected event leaves its own key covered -/
+theorem notify_covers {c : Cfg} {σ : St} (hc : CalmFrom c σ) (s r : Nat) (ty : EvType) (hsel : c.sel s r ty = true) :
+    Cov c (notify c σ s (r, ty)).1 s r := by
+  unfold notify; simp only [hsel, if_true]
+  cases hj : σ.shelf s r with
+  | none => rw [notifyNow_none hj]; intro j hj'; rw [hj] at hj'; cases hj'
+  | some j =>
+    rw [notifyNow_some hj]
+    have hcalm := hc.now s r
+    generalize c.beh s r (attemptNo σ s r) = o at hcalm
+    cases o <;> simp [Outcome.calm] at hcalm <;> simp only [resAfter, jobAfter]
+    · intro j' hj'; simp at hj'
+    · exact cov_after_spawn (j1 := { j with retries := j.retries + 1, err := .incomplete }) (by simp) (by simp)
+    · exact cov_after_spawn (j1 := { j with retries := j.retries + 1, err := .generic }) (by simp) (by simp)
+    · intro j' hj' hlt
+      simp at hj'; subst hj'; simp at hlt; omega
+
+
+theorem spawn_grows (c : Cfg) (σ : St) (s r k : Nat) : Grows σ (spawn c σ s r k) := ⟨[], by rw [spawn_ledger]; rfl⟩
+
+/-- facts about one calm `Notify` -/
+structure NotifyOk (c : Cfg) (σ σ' : St) : Prop where
+  grows : Grows σ σ'
+  keeps : ∀ s' r', Cov c σ s' r' → Cov c σ' s' r'
+  pending : σ'.pending = σ.pending
+  noCtx : NoCtx σ → NoCtx σ'
+
+theorem notify_ok {c : Cfg} {σ : St} (hc : CalmFrom c σ) (s : Nat) (ev : Nat × EvType) :
+    (notify c σ s ev).2 = false ∧ NotifyOk c σ (notify c σ s ev).1 := by
+  unfold notify
+  split
+  · have hg := notifyNow_grows c σ s ev.1
+    have hk := fun s' r' => notifyNow_keeps hc s ev.1 s' r'
+    have hp := notifyNow_pending c σ s ev.1
+    have hn := notifyNow_not_crashed hc s ev.1
+    have hx := notifyNow_noCtx hc s ev.1
+    generalize notifyNow c σ s ev.1 = p at hg hk hp hn hx
+    obtain ⟨σ', res⟩ := p
+    cases res <;> simp only
+    · exact ⟨trivial, hg, hk, hp, hx⟩
+    · exact ⟨trivial, hg.trans (spawn_grows _ _ _ _ _), fun s' r' h => spawn_keeps _ _ _ _ _ (hk s' r' h),
+        by rw [spawn_pending]; exact hp, fun h => spawn_noCtx _ _ _ (hx h)⟩
+    · exact ⟨trivial, hg, hk, hp, hx⟩
+    · exact absurd rfl hn
+  · exact ⟨rfl, Grows.refl _, fun _ _ h => h, rfl, fun h => h⟩
+
+theorem NotifyOk.trans {c : Cfg} {a b d : St} (h1 : NotifyOk c a b) (h2 : NotifyOk c b d) : NotifyOk c a d :=
+  ⟨h1.grows.trans h2.grows, fun s r h => h2.keeps s r (h1.keeps s r h), h2.pending.trans h1.pending, fun h => h2.noCtx (h1.noCtx h)⟩
+
+theorem notifyAll_ok {c : Cfg} (ev : Nat × EvType) (order : List Nat) {σ : St} (hc : CalmFrom c σ) :
+    (notifyAll c ev order σ).2 = false ∧ NotifyOk c σ (notifyAll c ev order σ).1 ∧
+    (∀ s, s ∈ order → c.sel s ev.1 ev.2 = true → Cov c (notifyAll c ev order σ).1 s ev.1) := by
+  induction order generalizing σ with
+  | nil => exact ⟨rfl, ⟨Grows.refl _, fun _ _ h => h, rfl, fun h => h⟩, fun s hs => by cases hs⟩
+  | cons s0 rest ih =>
+    unfold notifyAll
+    have h1 := notify_ok hc s0 ev
+    have h2 : c.sel s0 ev.1 ev.2 = true → Cov c (notify c σ s0 ev).1 s0 ev.1 := fun hsel => notify_covers hc s0 ev.1 ev.2 hsel
+    generalize notify c σ s0 ev = p at h1 h2
+    obtain ⟨σ', b⟩ := p
+    obtain ⟨hb, hok⟩ := h1
+    simp only at hb; subst hb
+    simp only
+    obtain ⟨i1, i2, i3⟩ := ih (hc.mono hok.grows)
+    refine ⟨i1, hok.trans i2, ?_⟩
+    intro s hs hsel
+    rcases List.mem_cons.mp hs with rfl | hs
+    · exact i2.keeps _ _ (h2 hsel)
+    · exact i3 s hs hsel
+
+theorem Covered.afterCommit {c : Cfg} {σ : St} (h : Covered c σ) (hc : CalmFrom c σ) (order : List Nat)
+    (hord : ∀ s, s < c.nSubs → s ∈ order) :
+    Covered c (afterCommit c σ order) ∧ Grows σ (afterCommit c σ order) ∧ (NoCtx σ → NoCtx (afterCommit c σ order)) := by
+  unfold Nuts.C14.afterCommit
+  split
+  · exact ⟨h, Grows.refl _, fun h => h⟩
+  · next ev rest hp =>
+    have hc' : CalmFrom c { σ with pending := rest } := hc
+    obtain ⟨i1, i2, i3⟩ := notifyAll_ok ev order hc'
+    generalize notifyAll c ev order { σ with pending := rest } = p at i1 i2 i3
+    obtain ⟨σ', b⟩ := p
+    simp only at i1; subst i1
+    simp only
+    refine ⟨?_, i2.grows, i2.noCtx⟩
+    intro s r hs hr
+    by_cases hk : r = ev.1 ∧ c.sel s ev.1 ev.2 = true
+    · rw [hk.1]; exact i3 s (hord s hs) hk.2
+    · apply i2.keeps
+      refine CovAt.keep (h s r hs hr) (fun j' hj' _ => ⟨j', hj', Nat.le_refl _⟩) (fun t ht _ _ => ht) ?_
+      intro ty hm hsel
+      rw [hp] at hm
+      rcases List.mem_cons.mp hm with he | hm
+      · exfalso; apply hk
+        rw [← he]; exact ⟨rfl, hsel⟩
+      · exact hm
+
+
+theorem fire_err_cov {c : Cfg} {σ : St} {t : Task} {s r : Nat} {j j1 : Job} {e : Entry} (h : Covered c σ)
+    (htk : t.sub = s ∧ t.ref = r) (hj : σ.shelf s r = some j) (h1 : j1.retries = j.retries + 1) :
+    Covered c (if t.left ≤ 1 then setJob (log { σ with running := σ.running.erase t } e) s r (some j1)
+      else { setJob (log { σ with running := σ.running.erase t } e) s r (some j1) with
+        running := (setJob (log { σ with running := σ.running.erase t } e) s r (some j1)).running ++
+          [{ t with left := t.left - 1, n := t.n + 1 }] }) := by
+  intro s' r' hs hr
+  by_cases hk : s' = s ∧ r' = r
+  · obtain ⟨rfl, rfl⟩ := hk
+    have hcov := h s' r' hs hr j hj
+    split
+    · next hle =>
+      intro j' hj' hlt
+      simp at hj'; subst hj'
+      rcases hcov (by omega) with ⟨w, hw, a, b, d, f⟩ | ⟨ty, hp, hsel⟩
+      · by_cases hwt : w = t
+        · subst hwt; omega
+        · exact .inl ⟨w, by simpa using (List.mem_erase_of_ne hwt).mpr hw, a, b, d, by omega⟩
+      · exact .inr ⟨ty, hp, hsel⟩
+    · next hle =>
+      intro j' hj' hlt
+      simp at hj'; subst hj'
+      rcases hcov (by omega) with ⟨w, hw, a, b, d, f⟩ | ⟨ty, hp, hsel⟩
+      · by_cases hwt : w = t
+        · subst hwt
+          exact .inl ⟨{ w with left := w.left - 1, n := w.n + 1 }, by simp, a, b, by simp only; omega, by simp only; omega⟩
+        · exact .inl ⟨w, by simp; exact .inl ((List.mem_erase_of_ne hwt).mpr hw), a, b, d, by omega⟩
+      · exact .inr ⟨ty, hp, hsel⟩
+  · have keep : ∀ (run' : List Task), (∀ t', t' ∈ σ.running.erase t → t' ∈ run') →
+        CovAt c (setJob (log { σ with running := σ.running.erase t } e) s r (some j1)).shelf run' σ.pending s' r' := by
+      intro run' hr'
+      refine CovAt.keep (h s' r' hs hr) ?_ ?_ (fun ty hp _ => hp)
+      · intro j' hj' _
+        simp only [setJob_shelf, log_shelf, if_neg hk] at hj'
+        exact ⟨j', hj', Nat.le_refl _⟩
+      · intro t' ht' a b
+        have : t' ≠ t := by
+          intro e; subst e; exact hk ⟨a.symm.trans htk.1 |>.symm ▸ rfl, by rw [← b, htk.2]⟩
+        exact hr' t' ((List.mem_erase_of_ne this).mpr ht')
+    split
+    · exact keep _ (fun t' ht' => ht')
+    · exact keep _ (fun t' ht' => by simp; exact .inl ht')
+
+theorem Covered.fire {c : Cfg} {σ : St} (h : Covered c σ) (hc : CalmFrom c σ) (s r : Nat) :
+    Covered c (fire c σ s r) ∧ Grows σ (fire c σ s r) ∧ (NoCtx σ → NoCtx (fire c σ s r)) := by
+  unfold Nuts.C14.fire
+  split
+  · exact ⟨h, Grows.refl _, fun h => h⟩
+  · next t ht =>
+    simp only
+    have htm : t ∈ σ.running := List.mem_of_find?_eq_some ht
+    have htk : t.sub = s ∧ t.ref = r := by
+      have := List.find?_some ht
+      simpa [Task.isFor] using this
+    have hc0 : CalmFrom c { σ with running := σ.running.erase t } := hc
+    -- coverage in the state without the fired task, for keys other than (s, r) and for witnesses other than t
+    have hg := notifyNow_grows c { σ with running := σ.running.erase t } s r
+    have hn := notifyNow_not_crashed hc0 s r
+    have hx := notifyNow_noCtx hc0 s r
+    have hrun := notifyNow_running c { σ with running := σ.running.erase t } s r
+    have hpen := notifyNow_pending c { σ with running := σ.running.erase t } s r
+    cases hj : σ.shelf s r with
+    | none =>
+      have e := notifyNow_none (c := c) (σ := { σ with running := σ.running.erase t }) (s := s) (r := r) hj
+      rw [e]; simp only
+      refine ⟨?_, Grows.refl _, fun h => h⟩
+      intro s' r' hs hr
+      by_cases hk : s' = s ∧ r' = r
+      · obtain ⟨rfl, rfl⟩ := hk
+        intro j hj'; simp only at hj'; rw [hj] at hj'; cases hj'
+      · refine CovAt.keep (h s' r' hs hr) (fun j' hj' _ => ⟨j', hj', Nat.le_refl _⟩) ?_ (fun ty hp _ => hp)
+        intro t' ht' h1 h2
+        have : t' ≠ t := by
+          intro e; subst e; exact hk ⟨h1.symm.trans htk.1 |>.symm ▸ rfl, by rw [← h2, htk.2]⟩
+        exact (List.mem_erase_of_ne this).mpr ht'
+    | some j =>
+      have e := notifyNow_some (c := c) (σ := { σ with running := σ.running.erase t }) (s := s) (r := r) hj
+      have hcalm := hc0.now s r
+      rw [e] at hg hn hx ⊢
+      generalize c.beh s r (attemptNo { σ with running := σ.running.erase t } s r) = o at hcalm hg hn hx ⊢
+      -- common part: keys other than (s, r)
+      have hother : ∀ (fin : St), fin.shelf = (setJob (log { σ with running := σ.running.erase t }
+            (Entry.call s r j.type j.retries o)) s r (jobAfter c j o)).shelf →
+          (∀ t', t' ∈ σ.running.erase t → t' ∈ fin.running) → fin.pending = σ.pending →
+          ∀ s' r', s' < c.nSubs → r' < c.nRefs → ¬(s' = s ∧ r' = r) → Cov c fin s' r' := by
+        intro fin hsh hr' hp' s' r' hs hr hk
+        refine CovAt.keep (h s' r' hs hr) ?_ ?_ (fun ty hp _ => by rw [hp']; exact hp)
+        · intro j' hj' _
+          rw [hsh] at hj'
+          simp only [setJob_shelf, log_shelf, if_neg hk] at hj'
+          exact ⟨j', hj', Nat.le_refl _⟩
+        · intro t' ht' h1 h2
+          have : t' ≠ t := by
+            intro e; subst e; exact hk ⟨h1.symm.trans htk.1 |>.symm ▸ rfl, by rw [← h2, htk.2]⟩
+          exact hr' t' ((List.mem_erase_of_ne this).mpr ht')
+      cases o <;> simp [Outcome.calm] at hcalm <;> simp only [resAfter, jobAfter] at hg hx hother ⊢
+      · -- done
+        refine ⟨?_, hg, hx⟩
+        intro s' r' hs hr
+        by_cases hk : s' = s ∧ r' = r
+        · obtain ⟨rfl, rfl⟩ := hk
+          intro j' hj'; simp at hj'
+        · exact hother _ rfl (fun t' ht' => ht') rfl s' r' hs hr hk
+      · -- notDone
+        exact ⟨by
+          have := fire_err_cov (c := c) (σ := σ) (t := t) (s := s) (r := r) (j := j)
+            (j1 := { j with retries := j.retries + 1, err := .incomplete })
+            (e := Entry.call s r j.type j.retries Outcome.notDone) h htk hj rfl
+          split
+          · next hle => simpa [hle] using this
+          · next hle => simpa [hle] using this,
+          by split
+             · exact hg
+             · exact hg.trans ⟨[], rfl⟩,
+          by intro hh; split
+             · exact hx hh
+             · exact hx hh⟩
+      · -- fail
+        exact ⟨by
+          have := fire_err_cov (c := c) (σ := σ) (t := t) (s := s) (r := r) (j := j)
+            (j1 := { j with retries := j.retries + 1, err := .generic })
+            (e := Entry.call s r j.type j.retries Outcome.fail) h htk hj rfl
+          split
+          · next hle => simpa [hle] using this
+          · next hle => simpa [hle] using this,
+          by split
+             · exact hg
+             · exact hg.trans ⟨[], rfl⟩,
+          by intro hh; split
+             · exact hx hh
+             · exact hx hh⟩
+      · -- fatal
+        refine ⟨?_, hg, hx⟩
+        intro s' r' hs hr
+        by_cases hk : s' = s ∧ r' = r
+        · obtain ⟨rfl, rfl⟩ := hk
+          intro j' hj' hlt; simp at hj'; subst hj'; simp at hlt; omega
+        · exact hother _ rfl (fun t' ht' => ht') rfl s' r' hs hr hk
+
+
+theorem Covered.finishedExt {c : Cfg} {σ : St} (h : Covered c σ) (s r : Nat) (f : Bool) :
+    Covered c (Nuts.C14.finishedExt σ s r f) ∧ Grows σ (Nuts.C14.finishedExt σ s r f) ∧
+    (NoCtx σ → NoCtx (Nuts.C14.finishedExt σ s r f)) := by
+  unfold Nuts.C14.finishedExt
+  split
+  · exact ⟨h, Grows.refl _, fun h => h⟩
+  · split
+    · exact ⟨h, Grows.refl _, fun h => h⟩
+    · refine ⟨?_, ⟨[_], rfl⟩, ?_⟩
+      · intro s' r' hs hr
+        refine CovAt.keep (h s' r' hs hr) ?_ (fun t ht _ _ => ht) (fun ty hp _ => hp)
+        intro j' hj' _
+        simp only [log_shelf, setJob_shelf] at hj'
+        split at hj'
+        · cases hj'
+        · exact ⟨j', hj', Nat.le_refl _⟩
+      · intro hn s' r' j' hj'
+        simp only [log_shelf, setJob_shelf] at hj'
+        split at hj'
+        · cases hj'
+        · exact hn _ _ _ hj'
+
+/-- saving an event whose notification is pending keeps everything covered -/
+theorem covAt_save {c : Cfg} {σa : St} {run : List Task} {pen : List (Nat × EvType)} (ev : Nat × EvType) (hev : ev ∈ pen)
+    {s r : Nat} (h : CovAt c σa.shelf run pen s r) : CovAt c (saveEvent c σa ev).shelf run pen s r := by
+  intro j' hj' hlt
+  rw [(saveEvent_spec c σa ev).shelf] at hj'
+  split at hj'
+  · next hcond =>
+    obtain ⟨_, rfl, hsel, _⟩ := hcond
+    exact .inr ⟨ev.2, hev, hsel⟩
+  · exact h j' hj' hlt
+
+theorem saveEvent_running (c : Cfg) (σ : St) (ev : Nat × EvType) : (saveEvent c σ ev).running = σ.running := (saveEvent_spec c σ ev).running
+theorem saveEvent_pending (c : Cfg) (σ : St) (ev : Nat × EvType) : (saveEvent c σ ev).pending = σ.pending := (saveEvent_spec c σ ev).pending
+
+theorem noCtx_save {c : Cfg} {σa : St} (ev : Nat × EvType) (h : NoCtx σa) : NoCtx (saveEvent c σa ev) := by
+  intro s r j hj
+  rw [(saveEvent_spec c σa ev).shelf] at hj
+  split at hj
+  · injection hj with hj; subst hj; simp [newJob]
+  · exact h _ _ _ hj
+
+theorem Covered.addTx {c : Cfg} {σ : St} (h : Covered c σ) (a : AddArgs) :
+    Covered c (addTx c σ a).1 ∧ Grows σ (addTx c σ a).1 ∧ (NoCtx σ → NoCtx (addTx c σ a).1) := by
+  unfold Nuts.C14.addTx
+  split; · exact ⟨h, Grows.refl _, fun h => h⟩
+  split; · exact ⟨h, Grows.refl _, fun h => h⟩
+  split; · exact ⟨h, Grows.refl _, fun h => h⟩
+  split; · exact ⟨h, Grows.refl _, fun h => h⟩
+  split; · exact ⟨h, Grows.refl _, fun h => h⟩
+  split; · exact ⟨h, Grows.refl _, fun h => h⟩
+  simp only
+  split
+  · next hp =>
+    refine ⟨?_, ⟨[], by simp [saveEvent_ledger]⟩, ?_⟩
+    · intro s r hs hr
+      unfold Cov
+      simp only [saveEvent_running, saveEvent_pending]
+      apply covAt_save (a.ref, EvType.tx) (by simp)
+      simp only
+      apply covAt_save (a.ref, EvType.payload) (by simp)
+      exact CovAt.keep (h s r hs hr) (fun j' hj' _ => ⟨j', hj', Nat.le_refl _⟩) (fun t ht _ _ => ht)
+        (fun ty hp _ => by simp [hp])
+    · intro hn
+      exact noCtx_save _ (noCtx_save _ hn)
+  · next hp =>
+    refine ⟨?_, ⟨[], by simp [saveEvent_ledger]⟩, ?_⟩
+    · intro s r hs hr
+      unfold Cov
+      simp only [saveEvent_running, saveEvent_pending]
+      apply covAt_save (a.ref, EvType.tx) (by simp)
+      exact CovAt.keep (h s r hs hr) (fun j' hj' _ => ⟨j', hj', Nat.le_refl _⟩) (fun t ht _ _ => ht)
+        (fun ty hp _ => by simp [hp])
+    · intro hn
+      exact noCtx_save _ hn
+
+theorem Covered.writePayload {c : Cfg} {σ : St} (h : Covered c σ) (r : Nat) (cf : Bool) :
+    Covered c (writePayload c σ r cf).1 ∧ Grows σ (writePayload c σ r cf).1 ∧ (NoCtx σ → NoCtx (writePayload c σ r cf).1) := by
+  unfold Nuts.C14.writePayload
+  split; · exact ⟨h, Grows.refl _, fun h => h⟩
+  split; · exact ⟨h, Grows.refl _, fun h => h⟩
+  split; · exact ⟨h, Grows.refl _, fun h => h⟩
+  simp only
+  refine ⟨?_, ⟨[], by simp [saveEvent_ledger]⟩, ?_⟩
+  · intro s r' hs hr
+    unfold Cov
+    simp only [saveEvent_running, saveEvent_pending]
+    apply covAt_save (r, EvType.payload) (by simp)
+    exact CovAt.keep (h s r' hs hr) (fun j' hj' _ => ⟨j', hj', Nat.le_refl _⟩) (fun t ht _ _ => ht)
+      (fun ty hp _ => by simp [hp])
+  · intro hn
+    exact noCtx_save _ hn
+
+
+def accNext (c : Cfg) (o : Outcome) (acc : List (Nat × Nat)) (r ret : Nat) : List (Nat × Nat) :=
+  if o = .done then acc else if ret < c.maxRetries then acc ++ [(r, ret)] else acc
+
+theorem runCalls_cons_some {c : Cfg} {s : Nat} {σ : St} {r0 ret0 : Nat} {rest acc : List (Nat × Nat)} {j : Job}
+    (hj : σ.shelf s r0 = some j) (hcalm : (c.beh s r0 (attemptNo σ s r0)).calm = true) :
+    runCalls c s ((r0, ret0) :: rest) σ acc =
+      runCalls c s rest (setJob (log σ (.call s r0 j.type j.retries (c.beh s r0 (attemptNo σ s r0)))) s r0
+          (jobAfter c j (c.beh s r0 (attemptNo σ s r0))))
+        (accNext c (c.beh s r0 (attemptNo σ s r0)) acc r0 ret0) := by
+  conv => lhs; unfold runCalls
+  rw [notifyNow_some hj]
+  generalize c.beh s r0 (attemptNo σ s r0) = o at hcalm
+  cases o <;> simp [Outcome.calm] at hcalm <;> simp [resAfter, accNext]
+
+structure RunCallsOk (c : Cfg) (s : Nat) (l : List (Nat × Nat)) (σ : St) (acc : List (Nat × Nat))
+    (res : St × List (Nat × Nat) × Bool) : Prop where
+  notCrashed : res.2.2 = false
+  ok : NotifyOk c σ res.1
+  running : res.1.running = σ.running
+  accSub : ∀ p, p ∈ acc → p ∈ res.2.1
+  frame : ∀ r, (∀ p, p ∈ l → p.1 ≠ r) → res.1.shelf s r = σ.shelf s r
+  main : ∀ p, p ∈ l → ∀ j', res.1.shelf s p.1 = some j' → j'.retries < c.maxRetries →
+    1 ≤ j'.retries ∧ (p.1, j'.retries - 1) ∈ res.2.1
+
+theorem runCalls_ok {c : Cfg} (s : Nat) (l : List (Nat × Nat)) : ∀ (σ : St) (acc : List (Nat × Nat)),
+    CalmFrom c σ → l.Pairwise (fun a b => a.1 < b.1) →
+    (∀ p, p ∈ l → ∃ j, σ.shelf s p.1 = some j ∧ j.retries = p.2) →
+    RunCallsOk c s l σ acc (runCalls c s l σ acc) := by
+  induction l with
+  | nil =>
+    intro σ acc _ _ _
+    exact ⟨rfl, ⟨Grows.refl _, fun _ _ h => h, rfl, fun h => h⟩, rfl, fun p hp => hp, fun r _ => rfl, fun p hp => by cases hp⟩
+  | cons p0 rest ih =>
+    intro σ acc hc hpw hpre
+    obtain ⟨r0, ret0⟩ := p0
+    obtain ⟨j, hj, hret⟩ := hpre (r0, ret0) List.mem_cons_self
+    simp only at hj hret
+    have hcalm := hc.now s r0
+    rw [runCalls_cons_some hj hcalm]
+    have hpw' := List.pairwise_cons.mp hpw
+    -- the state after the first call
+    have hσ1 : (notifyNow c σ s r0).1 = setJob (log σ (.call s r0 j.type j.retries (c.beh s r0 (attemptNo σ s r0)))) s r0
+          (jobAfter c j (c.beh s r0 (attemptNo σ s r0))) := by rw [notifyNow_some hj]
+    have ok1 : NotifyOk c σ (notifyNow c σ s r0).1 :=
+      ⟨notifyNow_grows c σ s r0, fun s' r' => notifyNow_keeps hc s r0 s' r', notifyNow_pending c σ s r0, notifyNow_noCtx hc s r0⟩
+    rw [hσ1] at ok1
+    generalize hoe : c.beh s r0 (attemptNo σ s r0) = o at hcalm ok1 ⊢
+    generalize hσe : setJob (log σ (.call s r0 j.type j.retries o)) s r0 (jobAfter c j o) = σ1 at ok1 ⊢
+    have hsh1 : ∀ r, r ≠ r0 → σ1.shelf s r = σ.shelf s r := by
+      intro r hr; rw [← hσe]; simp [hr]
+    have hsh0 : σ1.shelf s r0 = jobAfter c j o := by rw [← hσe]; simp
+    have hrun1 : σ1.running = σ.running := by rw [← hσe]; rfl
+    have hne : ∀ p, p ∈ rest → p.1 ≠ r0 := fun p hp => by have := hpw'.1 p hp; simp only at this; omega
+    have hI := ih σ1 (accNext c o acc r0 ret0) (hc.mono ok1.grows) hpw'.2 (by
+      intro p hp
+      obtain ⟨j', hj', hr'⟩ := hpre p (List.mem_cons_of_mem _ hp)
+      exact ⟨j', by rw [hsh1 _ (hne p hp)]; exact hj', hr'⟩)
+    generalize runCalls c s rest σ1 (accNext c o acc r0 ret0) = res at hI
+    obtain ⟨h1, h2, h3, h4, h5, h6⟩ := hI
+    have haccsub : ∀ p, p ∈ acc → p ∈ accNext c o acc r0 ret0 := by
+      intro p hp; unfold accNext; split
+      · exact hp
+      · split
+        · simp [hp]
+        · exact hp
+    refine ⟨h1, ok1.trans h2, h3.trans hrun1, fun p hp => h4 p (haccsub p hp), ?_, ?_⟩
+    · intro r hr
+      have hr0 : r ≠ r0 := fun e => hr (r0, ret0) List.mem_cons_self e.symm
+      rw [h5 r (fun p hp => hr p (List.mem_cons_of_mem _ hp)), hsh1 r hr0]
+    · intro p hp j' hj' hlt
+      rcases List.mem_cons.mp hp with rfl | hp
+      · simp only at hj' ⊢
+        rw [h5 r0 hne, hsh0] at hj'
+        have := jobAfter_calm_retries hcalm hj' hlt
+        refine ⟨by omega, h4 _ ?_⟩
+        have hnd : o ≠ .done := by intro e; subst e; simp [jobAfter] at hj'
+        unfold accNext
+        rw [if_neg hnd, if_pos (by omega)]
+        have : j'.retries - 1 = ret0 := by omega
+        rw [this]; simp
+      · exact h6 p hp j' hj' hlt
+
+
+theorem spawnAll_spec (c : Cfg) (s : Nat) (failed : List (Nat × Nat)) (σ : St) :
+    (∀ t, t ∈ σ.running → t ∈ (spawnAll c s failed σ).running) ∧
+    (∀ p, p ∈ failed → p.2 + 1 < c.maxRetries →
+      ∃ t, t ∈ (spawnAll c s failed σ).running ∧ t.sub = s ∧ t.ref = p.1 ∧ t.left = c.maxRetries - (p.2 + 1)) := by
+  unfold spawnAll
+  induction failed generalizing σ with
+  | nil => exact ⟨fun t ht => ht, fun p hp => by cases hp⟩
+  | cons p0 rest ih =>
+    simp only [List.foldl_cons]
+    obtain ⟨i1, i2⟩ := ih (spawn c σ s p0.1 p0.2)
+    refine ⟨fun t ht => i1 t (spawn_running_sub c σ s _ _ t ht), ?_⟩
+    intro p hp hlt
+    rcases List.mem_cons.mp hp with rfl | hp
+    · obtain ⟨t, ht, a, b, d⟩ := spawn_mem (c := c) (σ := σ) (s := s) (r := p.1) (k := p.2) hlt
+      exact ⟨t, i1 t ht, a, b, d⟩
+    · exact i2 p hp hlt
+
+theorem spawnAll_pending (c : Cfg) (s : Nat) (failed : List (Nat × Nat)) (σ : St) : (spawnAll c s failed σ).pending = σ.pending := by
+  unfold spawnAll
+  induction failed generalizing σ with
+  | nil => rfl
+  | cons p rest ih => simp only [List.foldl_cons]; rw [ih, spawn_pending]
+
+theorem snapshot_pairwise (c : Cfg) (σ : St) (s : Nat) : (runSnapshot c σ s).Pairwise (fun a b => a.1 < b.1) := by
+  unfold runSnapshot
+  refine List.Pairwise.filterMap _ ?_ List.pairwise_lt_range
+  intro a a' hlt b hb b' hb'
+  have e1 : b.1 = a := by
+    cases h : σ.shelf s a with
+    | none => simp [h] at hb
+    | some j => simp only [h] at hb; split at hb <;> simp at hb; rw [← hb]
+  have e2 : b'.1 = a' := by
+    cases h : σ.shelf s a' with
+    | none => simp [h] at hb'
+    | some j => simp only [h] at hb'; split at hb' <;> simp at hb'; rw [← hb']
+  rw [e1, e2]; exact hlt
+
+theorem snapshot_mem {c : Cfg} {σ : St} {s : Nat} {p : Nat × Nat} (h : p ∈ runSnapshot c σ s) :
+    ∃ j, σ.shelf s p.1 = some j ∧ j.retries = p.2 := by
+  unfold runSnapshot at h
+  obtain ⟨a, _, ha⟩ := List.mem_filterMap.mp h
+  cases hj : σ.shelf s a with
+  | none => simp [hj] at ha
+  | some j =>
+    simp only [hj] at ha
+    split at ha
+    · cases ha
+    · injection ha with ha; subst ha; exact ⟨j, hj, rfl⟩
+
+theorem mem_snapshot {c : Cfg} {σ : St} {s r : Nat} {j : Job} (hr : r < c.nRefs) (hj : σ.shelf s r = some j) (hctx : j.err ≠ .ctx) :
+    (r, j.retries) ∈ runSnapshot c σ s := by
+  unfold runSnapshot
+  refine List.mem_filterMap.mpr ⟨r, List.mem_range.mpr hr, ?_⟩
+  simp [hj, hctx]
+
+/-- a calm `Run` of one notifier: everything stays covered; every job of this notifier (not parked) gets covered -/
+theorem runSub_ok {c : Cfg} {σ : St} (hc : CalmFrom c σ) (s : Nat) :
+    (runSub c σ s).2 = false ∧ NotifyOk c σ (runSub c σ s).1 ∧
+    (NoCtx σ → ∀ r, r < c.nRefs → Cov c (runSub c σ s).1 s r) := by
+  unfold runSub
+  have h := runCalls_ok (c := c) s (runSnapshot c σ s) σ [] hc (snapshot_pairwise c σ s) (fun p hp => snapshot_mem hp)
+  generalize runCalls c s (runSnapshot c σ s) σ [] = res at h
+  obtain ⟨σ1, failed, b⟩ := res
+  obtain ⟨h1, h2, h3, _, h5, h6⟩ := h
+  simp only at h1 h2 h3 h5 h6; subst h1
+  simp only
+  obtain ⟨sp1, sp2⟩ := spawnAll_spec c s failed σ1
+  have hsame := spawnAll_same c s failed σ1
+  have hpen := spawnAll_pending c s failed σ1
+  have ok2 : NotifyOk c σ1 (spawnAll c s failed σ1) :=
+    ⟨⟨[], by rw [hsame.ledger]; rfl⟩,
+     fun s' r' hcov => by
+       unfold Cov; rw [hsame.shelf, hpen]
+       exact CovAt.keep hcov (fun j' hj' _ => ⟨j', hj', Nat.le_refl _⟩) (fun t ht _ _ => sp1 t ht) (fun ty hp _ => hp),
+     hpen,
+     fun hn => by unfold NoCtx; rw [hsame.shelf]; exact hn⟩
+  refine ⟨trivial, h2.trans ok2, ?_⟩
+  intro hn r hr j' hj' hlt
+  rw [hsame.shelf] at hj'
+  -- was there a job for r when Run took its snapshot?
+  cases hj0 : σ.shelf s r with
+  | none =>
+    have : σ1.shelf s r = σ.shelf s r := h5 r (fun p hp e => by
+      obtain ⟨j, hj, _⟩ := snapshot_mem hp; rw [e, hj0] at hj; cases hj)
+    rw [this, hj0] at hj'; cases hj'
+  | some j0 =>
+    have hm := mem_snapshot hr hj0 (hn s r j0 hj0)
+    obtain ⟨g1, g2⟩ := h6 _ hm j' hj' hlt
+    simp only at g2
+    obtain ⟨t, ht, a, b, d⟩ := sp2 _ g2 (by simp only; omega)
+    simp only at b d
+    exact .inl ⟨t, ht, a, b, by omega, by omega⟩
+
+theorem runAll_ok {c : Cfg} (order : List Nat) {σ : St} (hc : CalmFrom c σ) :
+    (runAll c order σ).2 = false ∧ NotifyOk c σ (runAll c order σ).1 ∧
+    (NoCtx σ → ∀ s, s ∈ order → ∀ r, r < c.nRefs → Cov c (runAll c order σ).1 s r) := by
+  induction order generalizing σ with
+  | nil => exact ⟨rfl, ⟨Grows.refl _, fun _ _ h => h, rfl, fun h => h⟩, fun _ s hs => by cases hs⟩
+  | cons s0 rest ih =>
+    unfold runAll
+    have h := runSub_ok hc s0
+    generalize runSub c σ s0 = p at h
+    obtain ⟨σ', b⟩ := p
+    obtain ⟨h1, h2, h3⟩ := h
+    simp only at h1; subst h1
+    simp only
+    obtain ⟨i1, i2, i3⟩ := ih (hc.mono h2.grows)
+    refine ⟨i1, h2.trans i2, ?_⟩
+    intro hn s hs r hr
+    rcases List.mem_cons.mp hs with rfl | hs
+    · exact i2.keeps _ _ (h3 hn r hr)
+    · exact i3 (h2.noCtx hn) s hs r hr
+
+theorem restart_ok {c : Cfg} {σ : St} (hc : CalmFrom c σ) (order : List Nat) :
+    NotifyOk c σ (restart c σ order) ∧
+    (NoCtx σ → ∀ s, s ∈ order → ∀ r, r < c.nRefs → Cov c (restart c σ order) s r) := by
+  unfold Nuts.C14.restart
+  have h := runAll_ok order hc
+  generalize runAll c order σ = p at h
+  obtain ⟨σ', b⟩ := p
+  obtain ⟨h1, h2, h3⟩ := h
+  simp only at h1; subst h1
+  exact ⟨h2, h3⟩
+
+/-- ops of a calm suffix: no stop; AfterCommit reaches every registered notifier -/
+def CalmOp (c : Cfg) : Op → Prop
+  | .afterCommit order => ∀ s, s < c.nSubs → s ∈ order
+  | .crash => False
+  | _ => True
+
+theorem Covered.step {c : Cfg} {σ : St} (h : Covered c σ) (hc : CalmFrom c σ) (op : Op) (hop : CalmOp c op) :
+    Covered c (step c σ op) ∧ Grows σ (step c σ op) ∧ (NoCtx σ → NoCtx (step c σ op)) := by
+  cases op with
+  | add a => exact h.addTx a
+  | afterCommit order => exact h.afterCommit hc order hop
+  | writePayload r cf => exact h.writePayload r cf
+  | finishedExt s r f => exact h.finishedExt s r f
+  | fire s r => exact h.fire hc s r
+  | crash => exact absurd hop id
+  | restart order =>
+    obtain ⟨h1, _⟩ := restart_ok hc order
+    exact ⟨fun s r hs hr => h1.keeps s r (h s r hs hr), h1.grows, h1.noCtx⟩
+
+theorem Covered.run {c : Cfg} {σ : St} (h : Covered c σ) (hc : CalmFrom c σ) (ops : List Op) (hops : ∀ op, op ∈ ops → CalmOp c op) :
+    Covered c (run c σ ops) := by
+  induction ops generalizing σ with
+  | nil => exact h
+  | cons op rest ih =>
+    obtain ⟨h1, h2, _⟩ := h.step hc op (hops op List.mem_cons_self)
+    exact ih h1 (hc.mono h2) (fun o ho => hops o (List.mem_cons_of_mem _ ho))
+
+/-- at rest (no retry loop, no pending notification) a covered state only holds jobs that exhausted the budget -/
+theorem Covered.quiescent {c : Cfg} {σ : St} (h : Covered c σ) (hr : σ.running = []) (hp : σ.pending = [])
+    (s r : Nat) (j : Job) (hs : s < c.nSubs) (hrr : r < c.nRefs) (hj : σ.shelf s r = some j) : c.maxRetries ≤ j.retries := by
+  cases Nat.lt_or_ge j.retries c.maxRetries with
+  | inr h' => exact h'
+  | inl hlt =>
+    rcases h s r hs hrr j hj hlt with ⟨t, ht, _⟩ | ⟨ty, hm, _⟩
+    · rw [hr] at ht; cases ht
+    · rw [hp] at hm; cases hm
+
+
+/-! ## Run re-delivers every job on the shelf (no assumption on the receivers) -/
+
+def hasCrash (l : List Entry) : Prop := ∃ s r ty k, Entry.call s r ty k .crash ∈ l
+
+def deliveredIn (s r : Nat) (l : List Entry) : Prop := ∃ ty k o, o ≠ Outcome.crash ∧ Entry.call s r ty k o ∈ l
+
+theorem hasCrash_append_left {a b : List Entry} (h : hasCrash b) : hasCrash (a ++ b) := by
+  obtain ⟨s, r, ty, k, hm⟩ := h; exact ⟨s, r, ty, k, List.mem_append_right _ hm⟩
+theorem hasCrash_append_right {a b : List Entry} (h : hasCrash a) : hasCrash (a ++ b) := by
+  obtain ⟨s, r, ty, k, hm⟩ := h; exact ⟨s, r, ty, k, List.mem_append_left _ hm⟩
+theorem deliveredIn_append_left {s r : Nat} {a b : List Entry} (h : deliveredIn s r b) : deliveredIn s r (a ++ b) := by
+  obtain ⟨ty, k, o, ho, hm⟩ := h; exact ⟨ty, k, o, ho, List.mem_append_right _ hm⟩
+theorem deliveredIn_append_right {s r : Nat} {a b : List Entry} (h : deliveredIn s r a) : deliveredIn s r (a ++ b) := by
+  obtain ⟨ty, k, o, ho, hm⟩ := h; exact ⟨ty, k, o, ho, List.mem_append_left _ hm⟩
+
+theorem runCalls_cons_crash {c : Cfg} {s : Nat} {σ : St} {r0 ret0 : Nat} {rest acc : List (Nat × Nat)} {j : Job}
+    (hj : σ.shelf s r0 = some j) (ho : c.beh s r0 (attemptNo σ s r0) = .crash) :
+    runCalls c s ((r0, ret0) :: rest) σ acc = (log σ (.call s r0 j.type j.retries .crash), acc, true) := by
+  conv => lhs; unfold runCalls
+  rw [notifyNow_some hj, ho]
+  simp only [resAfter, jobAfter]
+  rw [setJob_self]; simpa [log] using hj
+
+theorem runCalls_cons_go {c : Cfg} {s : Nat} {σ : St} {r0 ret0 : Nat} {rest acc : List (Nat × Nat)} {j : Job}
+    (hj : σ.shelf s r0 = some j) (ho : c.beh s r0 (attemptNo σ s r0) ≠ .crash) :
+    ∃ acc', runCalls c s ((r0, ret0) :: rest) σ acc =
+      runCalls c s rest (setJob (log σ (.call s r0 j.type j.retries (c.beh s r0 (attemptNo σ s r0)))) s r0
+          (jobAfter c j (c.beh s r0 (attemptNo σ s r0)))) acc' := by
+  conv => arg 1; intro acc'; lhs; unfold runCalls
+  rw [notifyNow_some hj]
+  generalize c.beh s r0 (attemptNo σ s r0) = o at ho
+  cases o <;> simp only [resAfter] <;> first | exact ⟨_, rfl⟩ | exact absurd rfl ho
+
+theorem runCalls_cons_none {c : Cfg} {s : Nat} {σ : St} {r0 ret0 : Nat} {rest acc : List (Nat × Nat)}
+    (hj : σ.shelf s r0 = none) : runCalls c s ((r0, ret0) :: rest) σ acc = runCalls c s rest σ acc := by
+  conv => lhs; unfold runCalls
+  rw [notifyNow_none hj]
+
+/-- ledger growth, "stopped ⇒ a crash call was logged", and only shelf `s` is touched -/
+theorem runCalls_info {c : Cfg} (s : Nat) (l : List (Nat × Nat)) : ∀ (σ : St) (acc : List (Nat × Nat)),
+    ∃ new, (runCalls c s l σ acc).1.ledger = new ++ σ.ledger ∧ ((runCalls c s l σ acc).2.2 = true → hasCrash new) ∧
+      (∀ s' r', s' ≠ s → (runCalls c s l σ acc).1.shelf s' r' = σ.shelf s' r') := by
+  induction l with
+  | nil => intro σ acc; exact ⟨[], rfl, fun h => (by cases h), fun _ _ _ => rfl⟩
+  | cons p rest ih =>
+    intro σ acc
+    obtain ⟨r0, ret0⟩ := p
+    cases hj : σ.shelf s r0 with
+    | none => rw [runCalls_cons_none hj]; exact ih σ acc
+    | some j =>
+      by_cases ho : c.beh s r0 (attemptNo σ s r0) = .crash
+      · rw [runCalls_cons_crash hj ho]
+        exact ⟨[_], rfl, fun _ => ⟨s, r0, j.type, j.retries, by simp⟩, fun _ _ _ => rfl⟩
+      · obtain ⟨acc', e⟩ := runCalls_cons_go (ret0 := ret0) (rest := rest) (acc := acc) hj ho
+        rw [e]
+        obtain ⟨new, h1, h2, h3⟩ := ih (setJob (log σ (.call s r0 j.type j.retries (c.beh s r0 (attemptNo σ s r0)))) s r0
+          (jobAfter c j (c.beh s r0 (attemptNo σ s r0)))) acc'
+        refine ⟨new ++ [.call s r0 j.type j.retries (c.beh s r0 (attemptNo σ s r0))], ?_, fun hb => hasCrash_append_right (h2 hb), ?_⟩
+        · rw [h1]; simp
+        · intro s' r' hs; rw [h3 s' r' hs]; simp [hs]
+
+theorem runCalls_delivers {c : Cfg} (s r : Nat) (l : List (Nat × Nat)) : ∀ (σ : St) (acc : List (Nat × Nat)) (j : Job),
+    (∃ ret, (r, ret) ∈ l) → σ.shelf s r = some j →
+    ∃ new, (runCalls c s l σ acc).1.ledger = new ++ σ.ledger ∧ (deliveredIn s r new ∨ hasCrash new) := by
+  induction l with
+  | nil => intro σ acc j ⟨ret, h⟩; cases h
+  | cons p rest ih =>
+    intro σ acc j ⟨ret, hm⟩ hj
+    obtain ⟨r0, ret0⟩ := p
+    by_cases hr : r0 = r
+    · subst hr
+      by_cases ho : c.beh s r0 (attemptNo σ s r0) = .crash
+      · rw [runCalls_cons_crash hj ho]
+        exact ⟨[_], rfl, .inr ⟨s, r0, j.type, j.retries, by simp⟩⟩
+      · obtain ⟨acc', e⟩ := runCalls_cons_go (ret0 := ret0) (rest := rest) (acc := acc) hj ho
+        rw [e]
+        obtain ⟨new, h1, _, _⟩ := runCalls_info (c := c) s rest (setJob (log σ (.call s r0 j.type j.retries (c.beh s r0 (attemptNo σ s r0)))) s r0
+          (jobAfter c j (c.beh s r0 (attemptNo σ s r0)))) acc'
+        refine ⟨new ++ [.call s r0 j.type j.retries (c.beh s r0 (attemptNo σ s r0))], by rw [h1]; simp, .inl ?_⟩
+        exact ⟨j.type, j.retries, _, ho, by simp⟩
+    · have hm' : ∃ ret, (r, ret) ∈ rest := by
+        rcases List.mem_cons.mp hm with e | hm
+        · injection e with e1 _; exact absurd e1.symm hr
+        · exact ⟨ret, hm⟩
+      cases hj0 : σ.shelf s r0 with
+      | none => rw [runCalls_cons_none hj0]; exact ih σ acc j hm' hj
+      | some j0 =>
+        by_cases ho : c.beh s r0 (attemptNo σ s r0) = .crash
+        · rw [runCalls_cons_crash hj0 ho]
+          exact ⟨[_], rfl, .inr ⟨s, r0, j0.type, j0.retries, by simp⟩⟩
+        · obtain ⟨acc', e⟩ := runCalls_cons_go (ret0 := ret0) (rest := rest) (acc := acc) hj0 ho
+          rw [e]
+          obtain ⟨new, h1, h2⟩ := ih (setJob (log σ (.call s r0 j0.type j0.retries (c.beh s r0 (attemptNo σ s r0)))) s r0
+            (jobAfter c j0 (c.beh s r0 (attemptNo σ s r0)))) acc' j hm' (by simp [Ne.symm hr, hj])
+          refine ⟨new ++ [.call s r0 j0.type j0.retries (c.beh s r0 (attemptNo σ s r0))], by rw [h1]; simp, ?_⟩
+          rcases h2 with h2 | h2
+          · exact .inl (deliveredIn_append_right h2)
+          · exact .inr (hasCrash_append_right h2)
+
+theorem runSub_info {c : Cfg} (σ : St) (s : Nat) :
+    ∃ new, (runSub c σ s).1.ledger = new ++ σ.ledger ∧ ((runSub c σ s).2 = true → hasCrash new) ∧
+      (∀ s' r', s' ≠ s → (runSub c σ s).1.shelf s' r' = σ.shelf s' r') := by
+  unfold runSub
+  obtain ⟨new, h1, h2, h3⟩ := runCalls_info (c := c) s (runSnapshot c σ s) σ []
+  generalize runCalls c s (runSnapshot c σ s) σ [] = res at h1 h2 h3
+  obtain ⟨σ1, failed, b⟩ := res
+  cases b <;> simp only at h1 h2 h3 ⊢
+  · have hs := spawnAll_same c s failed σ1
+    exact ⟨new, by rw [hs.ledger]; exact h1, fun h => (by cases h), fun s' r' hne => by rw [hs.shelf]; exact h3 s' r' hne⟩
+  · exact ⟨new, h1, fun _ => h2 trivial, h3⟩
+
+theorem runSub_delivers {c : Cfg} (σ : St) (s r : Nat) (j : Job) (hr : r < c.nRefs) (hj : σ.shelf s r = some j) (hctx : j.err ≠ .ctx) :
+    ∃ new, (runSub c σ s).1.ledger = new ++ σ.ledger ∧ (deliveredIn s r new ∨ hasCrash new) := by
+  unfold runSub
+  obtain ⟨new, h1, h2⟩ := runCalls_delivers (c := c) s r (runSnapshot c σ s) σ [] j ⟨_, mem_snapshot hr hj hctx⟩ hj
+  generalize runCalls c s (runSnapshot c σ s) σ [] = res at h1 h2
+  obtain ⟨σ1, failed, b⟩ := res
+  cases b <;> simp only at h1 ⊢
+  · exact ⟨new, by rw [(spawnAll_same c s failed σ1).ledger]; exact h1, h2⟩
+  · exact ⟨new, h1, h2⟩
+
+theorem runAll_info {c : Cfg} (order : List Nat) : ∀ (σ : St), ∃ new, (runAll c order σ).1.ledger = new ++ σ.ledger := by
+  intro σ; exact (runAll_dstep c order σ).grows
+
+theorem runAll_delivers {c : Cfg} (s r : Nat) (order : List Nat) : ∀ (σ : St) (j : Job), s ∈ order → r < c.nRefs →
+    σ.shelf s r = some j → j.err ≠ .ctx →
+    ∃ new, (runAll c order σ).1.ledger = new ++ σ.ledger ∧ (deliveredIn s r new ∨ hasCrash new) := by
+  induction order with
+  | nil => intro σ j hs; cases hs
+  | cons s0 rest ih =>
+    intro σ j hs hr hj hctx
+    unfold runAll
+    by_cases h0 : s0 = s
+    · subst h0
+      obtain ⟨new1, h1, h2⟩ := runSub_delivers (c := c) σ s0 r j hr hj hctx
+      generalize runSub c σ s0 = p at h1
+      obtain ⟨σ', b⟩ := p
+      cases b <;> simp only at h1 ⊢
+      · obtain ⟨new2, g⟩ := runAll_info (c := c) rest σ'
+        refine ⟨new2 ++ new1, by rw [g, h1, List.append_assoc], ?_⟩
+        rcases h2 with h2 | h2
+        · exact .inl (deliveredIn_append_left h2)
+        · exact .inr (hasCrash_append_left h2)
+      · exact ⟨new1, h1, h2⟩
+    · have hs' : s ∈ rest := by
+        rcases List.mem_cons.mp hs with e | hs
+        · exact absurd e.symm h0
+        · exact hs
+      obtain ⟨new1, h1, h2, h3⟩ := runSub_info (c := c) σ s0
+      generalize runSub c σ s0 = p at h1 h2 h3
+      obtain ⟨σ', b⟩ := p
+      cases b <;> simp only at h1 h2 h3 ⊢
+      · obtain ⟨new2, g1, g2⟩ := ih σ' j hs' hr (by rw [h3 s r (Ne.symm h0)]; exact hj) hctx
+        refine ⟨new2 ++ new1, by rw [g1, h1, List.append_assoc], ?_⟩
+        rcases g2 with g2 | g2
+        · exact .inl (deliveredIn_append_right g2)
+        · exact .inr (hasCrash_append_right g2)
+      · exact ⟨new1, h1, .inr (h2 trivial)⟩
+
+theorem restart_delivers {c : Cfg} (σ : St) (order : List Nat) (s r : Nat) (j : Job) (hs : s ∈ order) (hr : r < c.nRefs)
+    (hj : σ.shelf s r = some j) (hctx : j.err ≠ .ctx) :
+    ∃ new, (restart c σ order).ledger = new ++ σ.ledger ∧ (deliveredIn s r new ∨ hasCrash new) := by
+  unfold Nuts.C14.restart
+  obtain ⟨new, h1, h2⟩ := runAll_delivers (c := c) s r order σ j hs hr hj hctx
+  generalize runAll c order σ = p at h1
+  obtain ⟨σ', b⟩ := p
+  cases b <;> exact ⟨new, h1, h2⟩
+
 
 end Nuts.C14
